@@ -272,6 +272,15 @@ class Program:
             for node in m.tree.body:
                 if isinstance(node, ast.ClassDef):
                     self._add_class(m, node, m.name)
+        # classes defined inside functions (common in bumble/transport)
+        known = {id(c.node) for c in self.classes.values()}
+        for m in list(self.modules.values()):
+            for node in ast.walk(m.tree):
+                if isinstance(node, ast.ClassDef) and id(node) not in known:
+                    q = self.qual_of(node)
+                    if q not in self.classes:
+                        self.classes[q] = ClassInfo(q, m, node)
+                        known.add(id(node))
         for c in self.classes.values():
             c.bases = [self._resolve_base(c, b) for b in c.node.bases]
         self._subs: dict[str, list[str]] = {}
